@@ -16,18 +16,21 @@ impl<T: Send + 'static> Future for Guard<T> {
         mut self: Pin<&mut Self>,
         cx: &mut std::task::Context<'_>,
     ) -> std::task::Poll<Self::Output> {
-        if let Some(future) = self.future.as_mut() {
-            match future.as_mut().poll(cx) {
-                std::task::Poll::Ready(value) => {
-                    // Mark the future as completed.
-                    self.future = None;
-
-                    std::task::Poll::Ready(value)
-                }
-                std::task::Poll::Pending => std::task::Poll::Pending,
-            }
-        } else {
+        // the future is taken out while it is being polled: if it panics it
+        // is dropped by the unwinding instead of being handed to the drop
+        // handler, which would spawn (and poll again) a future that has
+        // already panicked
+        let Some(mut future) = self.future.take() else {
             panic!("Guard polled after completion");
+        };
+
+        match future.as_mut().poll(cx) {
+            std::task::Poll::Ready(value) => std::task::Poll::Ready(value),
+            std::task::Poll::Pending => {
+                self.future = Some(future);
+
+                std::task::Poll::Pending
+            }
         }
     }
 }
